@@ -25,6 +25,9 @@ pub struct DynSum {
     /// warm start, and the dependencies / staleness are also edited from top level between stabilises;
     /// the rest of the alphabet is cut down to what those histories need
     pub outside: bool,
+    /// the expert node has an observability callback that reads an observer and (when armed) writes a variable;
+    /// a permanently observed reader of that variable logs what it saw (C07 / C08 inside that user function)
+    pub cb: bool,
 }
 
 const C_VAR: usize = 0;
@@ -57,6 +60,13 @@ struct Sh {
     reconciles: Cell<u32>,
     /// reconcile adds the new dependencies before removing the old ones (the usual join order)
     add_first: Cell<bool>,
+    in_stabilise: Cell<bool>,
+    probe: RefCell<Option<Observer<SV>>>,
+    cb_calls_obs: Cell<u32>,
+    cb_write_armed: Cell<bool>,
+    cb_wrote: RefCell<Option<SV>>,
+    cb_var: RefCell<Option<Var<SV>>>,
+    reader_log: RefCell<Vec<(u32, SV)>>,
 }
 
 struct W {
@@ -193,7 +203,7 @@ fn reconcile(sh: &Rc<Sh>, expert: &WeakNode<SV>, children: &[Incr<SV>]) {
 
 impl Scenario for DynSum {
     fn name(&self) -> String {
-        format!("C14/dynamic_sum{}{}{}", if self.with_bind { "_with_bind_children" } else { "" }, if self.warm { "_warm" } else { "" }, if self.warm_deps { "_deps" } else { "" }) + if self.outside { "_edited_between_stabilises" } else { "" }
+        format!("C14/dynamic_sum{}{}{}", if self.with_bind { "_with_bind_children" } else { "" }, if self.warm { "_warm" } else { "" }, if self.warm_deps { "_deps" } else { "" }) + if self.cb { "_observability_callback" } else { "" } + if self.outside { "_edited_between_stabilises" } else { "" }
     }
     fn run(&self) {
         let state = IncrState::new();
@@ -223,6 +233,13 @@ impl Scenario for DynSum {
             did_invalidate: Cell::new(false),
             reconciles: Cell::new(0),
             add_first: Cell::new(false),
+            in_stabilise: Cell::new(false),
+            probe: RefCell::new(None),
+            cb_calls_obs: Cell::new(0),
+            cb_write_armed: Cell::new(false),
+            cb_wrote: RefCell::new(None),
+            cb_var: RefCell::new(None),
+            reader_log: RefCell::new(vec![]),
         });
         let x2w = xs[2].0.watch();
         let sh_b = sh.clone();
@@ -241,17 +258,45 @@ impl Scenario for DynSum {
         let children: Vec<Incr<SV>> = vec![xs[0].0.watch(), xs[1].0.map(|x| app(1, &[x.clone()])), bmain.clone()];
         // the expert node: sum of what the callbacks of its current dependencies delivered
         let sh_e = sh.clone();
-        let expert = ExpertNode::<SV>::new(&state.weak(), move || {
-            let mut acc = SV::lit(0);
-            let mut snap = vec![];
-            for e in sh_e.edges.borrow().iter() {
-                let v = sh_e.cb_vals.borrow().get(&e.id).cloned();
-                snap.push((e.id, v.clone()));
-                acc = acc.add(&v.unwrap_or_else(|| SV::lit(-777_777)));
-            }
-            sh_e.recomputes.borrow_mut().push((sh_e.round.get(), snap));
-            acc
-        });
+        let sh_o = sh.clone();
+        let expert = ExpertNode::<SV>::new_(
+            &state.weak(),
+            move || {
+                let mut acc = SV::lit(0);
+                let mut snap = vec![];
+                for e in sh_e.edges.borrow().iter() {
+                    let v = sh_e.cb_vals.borrow().get(&e.id).cloned();
+                    snap.push((e.id, v.clone()));
+                    acc = acc.add(&v.unwrap_or_else(|| SV::lit(-777_777)));
+                }
+                sh_e.recomputes.borrow_mut().push((sh_e.round.get(), snap));
+                acc
+            },
+            move |now_observable: bool| {
+                // a user function the engine calls while it links / unlinks observers inside stabilise
+                sh_o.cb_calls_obs.set(sh_o.cb_calls_obs.get() + 1);
+                if !sh_o.in_stabilise.get() {
+                    return;
+                }
+                cover("observability-callback-inside-stabilise");
+                if let Some(p) = sh_o.probe.borrow().as_ref() {
+                    let got = p.try_get_value();
+                    if got != Err(ObserverError::CurrentlyStabilising) {
+                        violation("C07/observer-readable-inside-stabilise", format!("an observer read from the expert node's observability callback (now_observable = {now_observable}) during stabilise #{} returned {got:?}, not CurrentlyStabilising", sh_o.round.get()));
+                    } else {
+                        cover("observer-read-inside-observability-callback");
+                    }
+                }
+                if sh_o.cb_write_armed.replace(false) {
+                    if let Some(v) = sh_o.cb_var.borrow().as_ref() {
+                        let nv = fresh();
+                        v.set(nv.clone());
+                        *sh_o.cb_wrote.borrow_mut() = Some(nv);
+                        cover("variable-written-inside-observability-callback");
+                    }
+                }
+            },
+        );
         // the child whose function edits the dependencies; it runs after the bind when the bind re-runs
         let weak = expert.weak();
         let sh_r = sh.clone();
@@ -275,6 +320,22 @@ impl Scenario for DynSum {
         let r = catch(|| {
             w.sh.add_first.set(choose(2) == 1);
             op_log(format!("reconcile order: {}", if w.sh.add_first.get() { "add then remove" } else { "remove then add" }));
+            let mut cb_keep: Vec<Observer<SV>> = vec![];
+            if self.cb {
+                // probe: an observer on an unrelated variable; reader: a permanently observed map over x0 that logs what it saw
+                let pv = w.state.var(fresh());
+                let po = pv.observe();
+                *w.sh.probe.borrow_mut() = Some(po);
+                std::mem::forget(pv);
+                *w.sh.cb_var.borrow_mut() = Some(w.xs[0].0.clone());
+                let sh_rd = w.sh.clone();
+                let rd = w.xs[0].0.map(move |x: &SV| {
+                    sh_rd.reader_log.borrow_mut().push((sh_rd.round.get(), x.clone()));
+                    SV::lit(0)
+                });
+                cb_keep.push(rd.observe());
+                w.sh.plan.borrow_mut()[C_VAR] = 1;
+            }
             if self.warm_deps {
                 w.sh.plan.borrow_mut()[C_VAR] = 1;
                 w.sh.plan.borrow_mut()[C_MAP] = 1;
@@ -284,7 +345,10 @@ impl Scenario for DynSum {
                 w.keep_child_obs = Some(w.children[C_MAP].observe());
                 w.obs = Some(w.top.observe());
                 w.sh.round.set(1);
+                w.sh.in_stabilise.set(true);
                 w.state.stabilise();
+                w.sh.in_stabilise.set(false);
+                w.sh.reader_log.borrow_mut().clear();
                 w.obs_in_use = true;
                 op_log("(warm start: KeepChild, Observe, Stabilise)".into());
             }
@@ -308,6 +372,7 @@ impl Scenario for DynSum {
                     AskInvalidate,
                     StaleOutside,
                     ReconcileOutside,
+                    ArmCbWrite,
                     Stabilise,
                 }
                 let mut acts = vec![];
@@ -321,7 +386,13 @@ impl Scenario for DynSum {
                         }
                     }
                 }
-                if self.outside {
+                if self.cb {
+                    acts.retain(|a| matches!(a, A::Plan(c, m) if *c == C_VAR && *m <= 1));
+                    acts.push(A::WriteX(0));
+                    if !w.sh.cb_write_armed.get() {
+                        acts.push(A::ArmCbWrite);
+                    }
+                } else if self.outside {
                     acts.retain(|a| matches!(a, A::Plan(c, _) if *c == C_MAP));
                     acts.push(A::WriteX(1));
                 } else {
@@ -338,7 +409,7 @@ impl Scenario for DynSum {
                 } else {
                     acts.push(A::Unobserve);
                 }
-                if self.outside {
+                if self.outside || self.cb {
                 } else if w.keep_child_obs.is_none() {
                     if !w.kept_once {
                         acts.push(A::KeepChild);
@@ -346,13 +417,13 @@ impl Scenario for DynSum {
                 } else {
                     acts.push(A::DropKeepChild);
                 }
-                if w.keep_reconcile_obs.is_none() && !self.outside {
+                if w.keep_reconcile_obs.is_none() && !self.outside && !self.cb {
                     acts.push(A::KeepReconcile);
                 }
-                if !w.sh.want_stale.get() && !w.sh.did_stale.get() && !self.outside {
+                if !w.sh.want_stale.get() && !w.sh.did_stale.get() && !self.outside && !self.cb {
                     acts.push(A::AskStale);
                 }
-                if !w.sh.want_invalidate.get() && !w.sh.did_invalidate.get() && !self.outside {
+                if !w.sh.want_invalidate.get() && !w.sh.did_invalidate.get() && !self.outside && !self.cb {
                     acts.push(A::AskInvalidate);
                 }
                 if stale_outside_allowed && !stale_outside_done && !w.invalidated && w.obs.is_some() && w.obs_in_use {
@@ -419,6 +490,9 @@ impl Scenario for DynSum {
                         w.keep_child_obs = Some(w.children[C_MAP].observe());
                         w.dirty = true;
                     }
+                    A::ArmCbWrite => {
+                        w.sh.cb_write_armed.set(true);
+                    }
                     A::AskStale => {
                         w.sh.want_stale.set(true);
                     }
@@ -443,8 +517,18 @@ impl Scenario for DynSum {
                         let rec_before = w.sh.recomputes.borrow().len();
                         let stale_before = w.sh.did_stale.get();
                         let obs_at_call = w.obs.as_ref().map(|_| ());
+                        let x0_at_call = w.xs[0].1.clone();
+                        w.sh.in_stabilise.set(true);
                         w.state.stabilise();
+                        w.sh.in_stabilise.set(false);
                         w.dirty = false;
+                        if self.cb {
+                            // every reader of x0 in this stabilise saw the value x0 had when stabilise was called
+                            for (r, seen) in w.sh.reader_log.borrow_mut().drain(..) {
+                                let (s2, x2) = (seen.clone(), x0_at_call.clone());
+                                require("C08/reader-saw-write-made-during-stabilise", F::eq(&seen, &x0_at_call), move || format!("stabilise #{r}: a reader of the variable ran on {s2:?}; the variable held {x2:?} when stabilise was called (a write made from the observability callback must be deferred)"));
+                            }
+                        }
                         if w.obs.is_some() {
                             if !w.obs_in_use && rec_before > 0 {
                                 cover("expert-observed-again");
@@ -501,8 +585,28 @@ impl Scenario for DynSum {
                         }
                     }
                 }
-                crate::world::audit_state(&w.state, is_stab);
+                let mut settled = is_stab;
+                if is_stab {
+                    let wrote = w.sh.cb_wrote.borrow_mut().take();
+                    if let Some(nv) = wrote {
+                        // a write deferred to the end of the stabilise leaves the variable pending
+                        settled = false;
+                        // the deferred write takes effect now: the variable is observed, so the state is not stable
+                        let got = w.xs[0].0.get();
+                        let (g2, n2) = (got.clone(), nv.clone());
+                        require("C08/get-after-stabilise", F::eq(&got, &nv), move || format!("get() after the stabilise in which the observability callback wrote {n2:?} returned {g2:?}"));
+                        if w.state.is_stable() {
+                            violation("C08/stable-after-deferred-write", "is_stable() is true right after a stabilise in which an observed variable was written from a user function".to_string());
+                        }
+                        w.xs[0].1 = nv;
+                        w.dirty = true;
+                    }
+                }
+                crate::world::audit_state(&w.state, settled);
             }
+            *w.sh.probe.borrow_mut() = None;
+            *w.sh.cb_var.borrow_mut() = None;
+            drop(cb_keep);
         });
         let ww = ManuallyDrop::into_inner(w);
         match r {
